@@ -50,6 +50,10 @@ class Option(AbstractOption):
 
     @property
     def default(self):  # type: () -> Any
+        if isinstance(self._default, list):
+            # The list stays ours: callers get a list of their own
+            return list(self._default)
+
         return self._default
 
     @property
